@@ -73,6 +73,13 @@ func Random(r *rand.Rand, maxSize int) *Spec {
 	if r.IntN(2) == 0 {
 		tsecs = append(tsecs, &abi.TDXMetadataSection{MemoryBase: 0x80b000, MemorySize: 0x2000, SectionType: abi.TDXMetadataSectionTypeTempMem})
 	}
+	// empty temporary-memory sections (legal: they occupy nothing) and any order of the sections
+	for k := r.IntN(3); k > 0 && r.IntN(2) == 0; k-- {
+		tsecs = append(tsecs, &abi.TDXMetadataSection{MemoryBase: abi.EFIPhysicalAddress(0x820000 + 0x1000*uint64(r.IntN(16))), MemorySize: 0, SectionType: abi.TDXMetadataSectionTypeTempMem})
+	}
+	if r.IntN(2) == 0 {
+		r.Shuffle(len(tsecs), func(i, j int) { tsecs[i], tsecs[j] = tsecs[j], tsecs[i] })
+	}
 	s.Tdx = &abi.TDXMetadata{Header: &abi.TDXMetadataDescriptor{Signature: abi.TDXMetadataDescriptorMagic, Length: uint32(16 + 32*len(tsecs)),
 		Version: abi.TDXMetadataVersion, SectionCount: uint32(len(tsecs))}, Sections: tsecs}
 	return s
